@@ -66,6 +66,10 @@ func ScenarioByName(name string) *Scenario {
 		sc = StaticSilent(arg(1), arg(2), arg(3), arg(4))
 	case "late":
 		sc = LateWitness(arg(1))
+	case "slow":
+		sc = Slow(arg(1), arg(2), arg(3), arg(4))
+	case "dups":
+		sc = Dups(arg(1), arg(2))
 	case "rejoin":
 		sc = Rejoin(arg(1), arg(2), arg(3), arg(4))
 	case "refused":
